@@ -430,7 +430,7 @@ def scaled(sc, s, offset=(0.0, 0.0, 0.0)):
     return dict(sc, anchor=f(sc['anchor']), width=[sc['width'][a] * s if a in ax else sc['width'][a] for a in range(3)], gens=[f(g) for g in sc['gens']])
 
 
-BATTERY_PIDS = ('C03', 'C04', 'C05', 'C06', 'C07', 'C08', 'C12', 'C13', 'C16')
+BATTERY_PIDS = ('C02', 'C03', 'C04', 'C05', 'C06', 'C07', 'C08', 'C12', 'C13', 'C16')
 
 
 def battery(seed=0):
